@@ -456,7 +456,7 @@ def vectordot(a: Tensor, b: Tensor, w: Optional[Tensor] = None, dim: int = -1) -
     r"""Inner product of vectors over specified input tensor dimension."""
     c = a.mul(b)
     if w is not None:
-        c.mul(w)
+        c = c.mul(w)
     return c.sum(dim)
 
 
